@@ -2062,7 +2062,11 @@ def run(ctx, heavy=False):
     ctx.notes.append('dtype pool of this run: %s' % (sorted(set(_DT_POOL)) if _DT_POOL else 'all'))
     pending = []
     per_fn = 6 if quick else 100
-    budget = 95 if quick else 17 * 60
+    # safety net only (the case counts above are sized for ~70 s quick on an idle machine): counted from the start of
+    # run(), NOT from process start, so that a cold Coq/OCaml build or a loaded machine does not shrink the coverage
+    import time as _time
+    _t_run0 = _time.time()
+    budget = 240 if quick else 17 * 60
     fns = list(ALL_FNS)
     # 1. named hard cases + random cases, every function
     for fn in fns:
@@ -2076,14 +2080,14 @@ def run(ctx, heavy=False):
         else:
             cases = targeted_cases(rng, fn) + [gen_case(rng, fn) for _ in range(per_fn)]
         for c in cases:
-            if ctx.elapsed() > budget:
+            if (_time.time() - _t_run0) > budget:
                 ctx.notes.append('time budget reached during the random sweep')
                 break
             explore(ctx, c, pending)
     # 1b. several lazy results on the same Dask raster, different parameters, ONE dask.compute
     for rnd in range(1 if quick else 6):
         for fn in PARAM_FNS:
-            if ctx.elapsed() > budget:
+            if (_time.time() - _t_run0) > budget:
                 break
             if fn == 'generate_terrain' and (quick or rnd > 1):
                 continue
@@ -2097,7 +2101,7 @@ def run(ctx, heavy=False):
     # 2. model-eligible cases (integer data, integer kernels) so that the correspondence has enough traces
     n_model = 45 if quick else 600
     for i in range(n_model):
-        if ctx.elapsed() > budget:
+        if (_time.time() - _t_run0) > budget:
             break
         fn = ['convolution_2d', 'curvature', 'apply', 'mean', 'hillshade'][i % 5]
         c = gen_case(rng, fn, rng.randint(2 if fn == 'hillshade' else 1, 8), rng.randint(2 if fn == 'hillshade' else 1, 8))
@@ -2127,7 +2131,7 @@ def run(ctx, heavy=False):
                     base = gen_case(rng, fn, H, W, style='all')
                     for cy in all_compositions(H):
                         for cx in all_compositions(W):
-                            if ctx.elapsed() > budget:
+                            if (_time.time() - _t_run0) > budget:
                                 done_all = False
                                 break
                             c = dict(base, chunks=[cy, cx])
